@@ -456,8 +456,93 @@ func (x *qtrans) stmts(list []ast.Stmt, en qenv, fc *qfctx, k qkont) string {
 	return ""
 }
 
+// qJoinLines: a continuation of at least this many lines that two branches of an `if` fall through to is emitted once,
+// as a definition `<f>.kN` of the variables it mentions (a join point), instead of being copied into both branches
+const qJoinLines = 12
+
+type qjoin struct {
+	env   qenv
+	text  string
+	n     int
+	token string
+}
+
+func qenvEqual(a, b qenv) bool {
+	if len(a.vars) != len(b.vars) || a.depth != b.depth {
+		return false
+	}
+	for i := range a.vars {
+		v, w := a.vars[i], b.vars[i]
+		if v.goName != w.goName || v.lean != w.lean || v.typ != w.typ || v.consumed != w.consumed || (v.link == nil) != (w.link == nil) {
+			return false
+		}
+		if v.link != nil && (v.link.root != w.link.root || v.link.inj != w.link.inj || strings.Join(v.link.fields, ".") != strings.Join(w.link.fields, ".")) {
+			return false
+		}
+	}
+	return true
+}
+
+// replaceIndented puts rep in the place of the token, indented to the token's column
+func replaceIndented(text, token, rep string) string {
+	for {
+		i := strings.Index(text, token)
+		if i < 0 {
+			return text
+		}
+		col := i - (strings.LastIndex(text[:i], "\n") + 1)
+		text = text[:i] + indent(rep, col) + text[i+len(token):]
+	}
+}
+
+// joinPoint emits the continuation as a definition of the variables it mentions and returns the call
+func (x *qtrans) joinPoint(en qenv, text string, s *ast.IfStmt) string {
+	x.nk++
+	name := fmt.Sprintf("%s.k%d", x.t.Lean, x.nk)
+	toks := map[string]bool{}
+	for _, t := range identRe.FindAllString(text, -1) {
+		toks[t] = true
+	}
+	var ps []qvar
+	seen := map[string]bool{}
+	for i := len(en.vars) - 1; i >= 0; i-- {
+		v := en.vars[i]
+		if seen[v.lean] {
+			continue
+		}
+		seen[v.lean] = true
+		if toks[v.lean] {
+			ps = append([]qvar{v}, ps...)
+		}
+	}
+	decl, args := "", ""
+	for _, v := range ps {
+		decl += " (" + v.lean + " : " + x.leanTypeOf(v.typ) + ")"
+		args += " " + v.lean
+	}
+	def := fmt.Sprintf("/-- join point %d of `%s`: what follows `if %s { .. }`, shared by the branches that fall through -/\ndef %s (env : %s)%s :\n    %s :=\n  %s\n",
+		x.nk, x.t.Func, oneLine(norm(src(s.Cond))), name, x.u.envType(), decl, x.resultType(), indent(text, 2))
+	x.aux = append(x.aux, def)
+	return name + " env" + args
+}
+
 func (x *qtrans) ifStmt(s *ast.IfStmt, en qenv, fc *qfctx, next qkont) string {
-	after := func(en2 qenv) string { return next(en2.popTo(en)) }
+	var joins []*qjoin
+	after := func(en2 qenv) string {
+		e := en2.popTo(en)
+		for _, j := range joins {
+			if qenvEqual(j.env, e) {
+				j.n++
+				return j.token
+			}
+		}
+		x.njoin++
+		j := &qjoin{env: e, token: fmt.Sprintf("JOIN_%d_", x.njoin)}
+		joins = append(joins, j)
+		j.text = next(e)
+		j.n = 1
+		return j.token
+	}
 	body := func(inner qenv) string {
 		p0 := len(x.pre)
 		c := x.coerce(x.expr(s.Cond, inner, "bool"), "bool")
@@ -475,10 +560,20 @@ func (x *qtrans) ifStmt(s *ast.IfStmt, en qenv, fc *qfctx, next qkont) string {
 		}
 		return x.withPre(p0, fc.pnc, "if "+c.lean+" then\n  "+indent(thenT, 2)+"\nelse\n  "+indent(elseT, 2))
 	}
+	var text string
 	if s.Init != nil {
-		return x.stmts([]ast.Stmt{s.Init}, en.push(), fc, body)
+		text = x.stmts([]ast.Stmt{s.Init}, en.push(), fc, body)
+	} else {
+		text = body(en)
 	}
-	return body(en)
+	for _, j := range joins {
+		rep := j.text
+		if j.n >= 2 && fc.top && x.tparams == nil && strings.Count(j.text, "\n")+1 >= qJoinLines {
+			rep = x.joinPoint(j.env, j.text, s)
+		}
+		text = replaceIndented(text, j.token, rep)
+	}
+	return text
 }
 
 // ---------------------------------------------------------------------------------------------
@@ -965,7 +1060,7 @@ func translateQ(u *qUnit, t *qTarget) (text string, reason string) {
 			body, lean = body.declare(n, rt[i])
 			x.emit("let " + lean + " : " + x.leanTypeOf(rt[i]) + " := " + z + "\n")
 		}
-		fc := &qfctx{}
+		fc := &qfctx{top: true}
 		fc.final = func(v string) string { return v }
 		fc.pnc = func() string {
 			x.needPnc = true
